@@ -11,6 +11,7 @@ mkdir -p "$W.ev" && cp "$HERE/known_findings.json" "$W.ev/"
 rc=0
 for d in ${@:-$(ls "$HERE/seeded")}; do
   S="$HERE/seeded/$d"; P=${d%%-*}
+  if grep -q '"obsolete"' "$S/meta.json"; then echo "$d obsolete (made harmless by a later fix: commit, see its meta.json)"; continue; fi
   if ! git -C "$W" apply "$S/patch.diff" 2>/dev/null; then echo "$d patch-does-not-apply"; rc=1; continue; fi
   fired=$("$HERE/bin/icecheck" -property "$P" -tier quick -repo "$W" -verif "$W.ev" 2>&1 | sed -n 's/^ *VIOLATED \(R[0-9.]*\).*/\1/p' | sort -u | tr '\n' ' ')
   git -C "$W" checkout -q -- . && git -C "$W" clean -fdq
